@@ -180,7 +180,7 @@ static void drain(void)
 
 /* ---------------------------------------------------------------- clients */
 #define MAXK 16
-struct client { qb_ipcc_connection_t *c; int fd, connected; pid_t pid; int to_child, from_child; };
+struct client { qb_ipcc_connection_t *c; int fd, connected; pid_t pid; int to_child, from_child, mode, reported; };
 static struct client cl[MAXK];
 static void env(const char *what, int k, long long v) { vt_ev("Env"); vt_s(what); vt_i(k); vt_i(v); vt_res(); vt_end(); }
 
@@ -503,15 +503,16 @@ static void exec_op(struct vt_line *L, int t0, int n, struct conn *self)
 		if (pid < 0) { perror("fork"); exit(2); }
 		if (pid == 0) { close(p1[1]); close(p2[0]); child_main(mode, nmsg, p1[0], p2[1]); }
 		close(p1[0]); close(p2[1]);
-		cl[k].pid = pid; cl[k].to_child = p1[1]; cl[k].from_child = p2[0];
+		cl[k].pid = pid; cl[k].to_child = p1[1]; cl[k].from_child = p2[0]; cl[k].mode = mode; cl[k].reported = 0;
 		int b = child_wait_byte(&cl[k], 10000);       /* 'A': the connect request is on its way */
 		env("Fork", k, b);
 		if (b != 'A') kill_child(&cl[k]);
 	} else if (!strcmp(op, "Wait")) {
 		/* serve the child until it reports that it is connected and has sent its messages (or failed) */
-		if (k < 0 || k >= MAXK || !cl[k].pid) return;
+		if (k < 0 || k >= MAXK || !cl[k].pid || cl[k].mode < 1 || cl[k].reported) return;
 		int b = 0;
 		for (int r = 0; r < 400 && !b; r++) { step(); b = child_wait_byte(&cl[k], 5); if (b == 'A') b = 0; }
+		cl[k].reported = b;
 		env("Wait", k, b);
 	} else if (!strcmp(op, "Kill")) {
 		if (k < 0 || k >= MAXK || !cl[k].pid) return;
